@@ -30,6 +30,8 @@ CONSTANTS MinN, MaxN,     \* number of packages
           MaxExtraRoots,  \* roots beyond the sources of the DAG
           RootPerm,       \* TRUE: all orders of the roots, FALSE: label order
           Topo,           \* TRUE: dependencies only towards larger labels (one labelling per topological order)
+          SkipTaken,      \* TRUE: numbering skips names that are taken (the code); FALSE: numbering of the code
+                          \*       before fix cd7a0eb (weakening, must violate UniqueNames)
           Gen             \* TRUE: print every finished case
 
 VARIABLES pc, nn, kidx, edges, pname, iso, roots, ksel,   \* the case
@@ -43,8 +45,8 @@ vars == <<pc, nn, kidx, edges, pname, iso, roots, ksel, job, v2j, bk, dorder, ri
 view == <<pc, nn, kidx, edges, pname, iso, roots, job, v2j, bk, dorder, ridx, mg, fin, pkgName, jj, bo>>
 
 \* Python orders the job names as strings; '-' < digits < letters, components are single characters.
-NameU == << <<"a">>, <<"a","1">>, <<"a","b">>, <<"a","b","c">>, <<"a","d">>, <<"e">>, <<"f">> >>
-Comps == <<"1", "2", "3", "4", "5", "6", "a", "b", "c", "d", "e", "f">>
+NameU == << <<"a">>, <<"a","1">>, <<"a","b">>, <<"a","b","c">>, <<"a","d">>, <<"e">>, <<"f">>, <<"a","2">> >>
+Comps == <<"1", "2", "3", "4", "5", "6", "7", "8", "9", "a", "b", "c", "d", "e", "f">>
 Digit(i) == Comps[i]
 CRank(c) == CHOOSE i \in 1..Len(Comps) : Comps[i] = c
 RECURSIVE TLt(_, _)
@@ -250,13 +252,20 @@ PrefixNames ==
   /\ pc' = "number"
   /\ UNCHANGED <<nn, kidx, edges, pname, iso, roots, ksel, job, v2j, bk, dorder, ridx, mg, pkgName, jj, bo, hist>>
 
-\* 661-668
+\* 661-673: several jobs for one name are numbered; a number whose name is a key of finalNames is skipped
+RECURSIVE NextFree(_, _)
+NextFree(nm, i) == IF SkipTaken /\ Append(nm, Digit(i)) \in DOMAIN fin THEN NextFree(nm, i + 1) ELSE i     \* 671
+RECURSIVE Numbers(_, _, _)
+Numbers(nm, k, prev) ==                                  \* numbers of the jobs k.. of finalNames[nm]
+  IF k > Len(fin[nm]) THEN <<>>
+  ELSE LET i == NextFree(nm, prev + 1) IN <<i>> \o Numbers(nm, k + 1, i)                                   \* 670-671
+
 Number ==
   /\ pc = "number"
   /\ pkgName' = [p \in Range(dorder) |->
         LET nm == CHOOSE x \in DOMAIN fin : v2j[p] \in Range(fin[x])
             k == CHOOSE i \in DOMAIN fin[nm] : fin[nm][i] = v2j[p]
-        IN IF Len(fin[nm]) = 1 THEN nm ELSE Append(nm, Digit(k))]
+        IN IF Len(fin[nm]) = 1 THEN nm ELSE Append(nm, Digit(Numbers(nm, 1, 0)[k]))]                       \* 664, 673
   /\ pc' = "populate"
   /\ UNCHANGED <<nn, kidx, edges, pname, iso, roots, ksel, job, v2j, bk, dorder, ridx, mg, fin, jj, bo, hist>>
 
